@@ -79,7 +79,7 @@ def oracle(s, ilines):
     return None
 
 def gen(rng, tier):
-    n = 180 if tier == "quick" else 4000
+    n = 360 if tier == "quick" else 4000
     per = 25
     out = []
     def batch(kd, vals, mk):
